@@ -214,7 +214,7 @@ func spaces(tier string) []*gridx.Space {
 		for i := 0; i < n1; i++ {
 			mid = append(mid, 2.0+0.5*float64(i))
 		}
-		out = append(out, &gridx.Space{Name: fmt.Sprintf("GR4J/x4=%g", x4), Model: "GR4J", Params: ps, PNames: pn, Letters: letters, T: T, Inits: [][]float64{nil, mid}, Oracle: oracle})
+		out = append(out, &gridx.Space{Name: fmt.Sprintf("GR4J/x4=%g", x4), Model: "GR4J", Params: ps, PNames: pn, Letters: letters, T: T, Inits: [][]float64{nil, mid}, Oracle: oracle, SecondPassEvery: 16})
 	}
 	return out
 }
